@@ -480,11 +480,17 @@ Definition site_loose_eqb (a b : site) : bool :=
 
 Definition owned (s : site) : bool := existsb (bytes_eqb (s_file s)) owned_files.
 
-Definition covered (s : site) : bool :=
-  existsb (fun m => if owned s then site_eqb s (fst m) else site_loose_eqb s (fst m)) modelled_sites.
-
 Definition dangerous_kind (k : skind) : bool :=
   match k with KAssert | KMust | KNilDeref | KSend => true | _ => false end.
+
+(* Files repaired for this property: every site must be listed exactly.  Files
+   of other properties: (file, function, kind) must be listed; kinds that are
+   not dangerous by themselves (bounded index/slice/make, close, a send inside a
+   select, a guarded start element) need no entry there, so that repairs made
+   for those properties do not have to be mirrored here. *)
+Definition covered (s : site) : bool :=
+  if owned s then existsb (fun m => site_eqb s (fst m)) modelled_sites
+  else negb (dangerous_kind (s_kind s)) || existsb (fun m => site_loose_eqb s (fst m)) modelled_sites.
 
 (* flags read from the inventory *)
 Definition receipts_site : site :=
